@@ -49,7 +49,7 @@ def load_pem_key(
     elif b"PRIVATE KEY-----" in raw:
         key = load_pem_private_key(raw, password=password, backend=default_backend())
 
-    elif b"-----BEGIN CERTIFICATE" in raw:
+    elif b"-----BEGIN CERTIFICATE" in raw or b"-----BEGIN X509 CERTIFICATE" in raw:
         cert = load_pem_x509_certificate(raw, backend=default_backend())
         return cert.public_key()
 
